@@ -11,6 +11,7 @@ import (
 	"github.com/osteele/liquid/parser"
 
 	"github.com/osteele/liquid/values"
+	"github.com/osteele/liquid/verifhook"
 )
 
 // Render renders the render tree.
@@ -43,6 +44,7 @@ func (c nodeContext) RenderSequence(w io.Writer, seq []Node) Error {
 }
 
 func (n *BlockNode) render(w *trimWriter, ctx nodeContext) Error {
+	verifhook.Step(verifhook.SiteRenderNode)
 	cd, ok := ctx.config.findBlockDef(n.Name)
 	if !ok || cd.parser == nil {
 		// this should have been detected during compilation; it's an implementation error if it happens here
@@ -67,6 +69,7 @@ func (n *RawNode) render(w *trimWriter, ctx nodeContext) Error {
 }
 
 func (n *ObjectNode) render(w *trimWriter, ctx nodeContext) Error {
+	verifhook.Step(verifhook.SiteRenderNode)
 	value, err := ctx.Evaluate(n.expr)
 	if err != nil {
 		return wrapRenderError(err, n)
@@ -90,11 +93,13 @@ func (n *SeqNode) render(w *trimWriter, ctx nodeContext) Error {
 }
 
 func (n *TagNode) render(w *trimWriter, ctx nodeContext) Error {
+	verifhook.Step(verifhook.SiteRenderNode)
 	err := wrapRenderError(n.renderer(w, rendererContext{ctx, n, nil}), n)
 	return err
 }
 
 func (n *TextNode) render(w *trimWriter, _ nodeContext) Error {
+	verifhook.Step(verifhook.SiteRenderNode)
 	_, err := io.WriteString(w, n.Source)
 	return wrapRenderError(err, n)
 }
